@@ -30,7 +30,7 @@ func init() {
 				}
 			}
 			key := rsaKey(2048, ki)
-			cert := simpleCert(key, fmt.Sprintf("image signer %d", ki)+a[2], int64(300+ki))
+			cert := c03SignerCert(ki, a[2])
 			sig, err := p.Sign(key, cert)
 			if err != nil {
 				return []string{"err-sign"}
@@ -50,6 +50,13 @@ func init() {
 		if err != nil {
 			return []string{peok, "err"}
 		}
+		if len(a) > 2 && a[2] != "" {
+			for _, h := range strings.Split(a[2], ",") {
+				if pc, err := x509.ParseCertificate(unhx(h)); err == nil {
+					p.Verify(pc)
+				}
+			}
+		}
 		ok, err := p.Verify(cert)
 		if err != nil {
 			return []string{peok, "err"}
@@ -63,6 +70,14 @@ func init() {
 		rule: "well-formed synthetic images (as in C01, small enough for the extracted SHA-256) crossed with signing histories of 1..3 steps (same or another 2048-bit key, certificates sized so that the signature length takes every residue modulo 8, with or without serialise/re-parse between steps; the image may already carry a table); the implementation's Bytes() is read by R_C03 (extracted check_signed_image): output well-formed, every original byte except the directory entry kept, zero padding, 8-aligned table spanned by the directory entry exactly to EOF, table = old entries || one revision-2.0 PKCS#7 WIN_CERTIFICATE per signature with correct length and padding, digest pre-image unchanged, Signatures() = old || new, every new signature embedding the digest of the output file; and compared byte for byte with the model's pe_bytes; then every signer's certificate must verify on Parse(out) and an unrelated certificate must not (R_C02); non-trivial = the history has at least one step and the image is well-formed; distinct by (image, history) hash",
 		run:  runC03,
 	}
+}
+
+// c03SignerCert: signer 0 is self-signed, signer 1 is issued by a CA (issuer differs from subject).
+func c03SignerCert(ki int, pad string) *x509.Certificate {
+	if ki == 1 {
+		return leafCert(rsaKey(2048, ki), fmt.Sprintf("image signer %d", ki)+pad, int64(300+ki))
+	}
+	return simpleCert(rsaKey(2048, ki), fmt.Sprintf("image signer %d", ki)+pad, int64(300+ki))
 }
 
 func smallPESpec(rng *rand.Rand) peSpec {
@@ -83,9 +98,7 @@ func runC03(c *Ctx) {
 	n := c.N(70, 1000)
 	// the common name is padded per case so that the signature length takes every residue modulo 8
 	cnPad := ""
-	signerCert := func(ki int) *x509.Certificate {
-		return simpleCert(rsaKey(2048, ki), fmt.Sprintf("image signer %d", ki)+cnPad, int64(300+ki))
-	}
+	signerCert := func(ki int) *x509.Certificate { return c03SignerCert(ki, cnPad) }
 	for i := 0; i < n; i++ {
 		cnPad = strings.Repeat("x", i%8)
 		spec := smallPESpec(rng)
@@ -132,8 +145,12 @@ func runC03(c *Ctx) {
 
 // evalPEVerify runs Parse(img).Verify(cert) and decides it with R_C02; when
 // want is true a success is additionally required (C03: the signer verifies).
-func evalPEVerify(c *Ctx, op, class string, img []byte, cert *x509.Certificate, want bool) string {
-	o := c.Impl("pe_verify", hx(img), hx(cert.Raw))
+func evalPEVerify(c *Ctx, op, class string, img []byte, cert *x509.Certificate, want bool, prior ...*x509.Certificate) string {
+	var ph []string
+	for _, pc := range prior {
+		ph = append(ph, hx(pc.Raw))
+	}
+	o := c.Impl("pe_verify", hx(img), hx(cert.Raw), strings.Join(ph, ","))
 	impl, peok := "err", "0"
 	if o.Class != "ret" {
 		impl = o.Class
